@@ -2,6 +2,7 @@
 exception kind, the requested elements, the DAG and all values are symbolic.  Oracle: depth-first simulation of the
 evaluation order over the pointers (which elements complete before the failure, which are on the failing chain)."""
 from kit import *  # noqa
+use_formula_memo()
 
 import os as _os
 TIER = _os.environ.get("VERIF_TIER", "quick")
